@@ -70,6 +70,7 @@ GEN_ERR = regen_gen_c05()
 # --------------------------------------------------------------------------
 
 def limits():
+    """inherited by every child (no preexec_fn: keeps subprocess on the fast vfork path)"""
     resource.setrlimit(resource.RLIMIT_CORE, (0, 0))
     resource.setrlimit(resource.RLIMIT_FSIZE, (1 << 30, 1 << 30))
 
@@ -77,8 +78,7 @@ def limits():
 def run_proc(cmd, cwd=None, timeout=TIMEOUT, stdout=subprocess.PIPE, env=None):
     t0 = time.time()
     try:
-        r = subprocess.run(cmd, cwd=cwd, stdout=stdout, stderr=subprocess.PIPE, env=env, timeout=timeout,
-                           preexec_fn=limits)
+        r = subprocess.run(cmd, cwd=cwd, stdout=stdout, stderr=subprocess.PIPE, env=env, timeout=timeout)
         return dict(rc=r.returncode, out=(r.stdout or b"") if stdout == subprocess.PIPE else b"",
                     err=r.stderr.decode("latin-1"), t=time.time() - t0)
     except subprocess.TimeoutExpired as e:
@@ -142,11 +142,9 @@ def model_batch(e, jobs):
     def one(chunk):
         inp = "".join("%s %s%s\n" % (m, p, "".join(" " + o for o in ops)) for m, p, ops in chunk)
 
-        def pre():
-            resource.setrlimit(resource.RLIMIT_STACK, (resource.RLIM_INFINITY, resource.RLIM_INFINITY))
         try:
-            r = subprocess.run([e.D, "-batch"], input=inp.encode(), stdout=subprocess.PIPE, stderr=subprocess.PIPE,
-                               preexec_fn=pre, timeout=900)
+            r = subprocess.run(["sh", "-c", "ulimit -s unlimited 2>/dev/null; exec \"$0\" -batch", e.D], input=inp.encode(),
+                               stdout=subprocess.PIPE, stderr=subprocess.PIPE, timeout=900)
         except subprocess.TimeoutExpired:
             return {}
         out = {}
@@ -183,6 +181,10 @@ def node_paths(lines):
     return out
 
 
+def node_names(lines):
+    return [b"" if l.split(" ")[2] == "-" else bytes.fromhex(l.split(" ")[2]) for l in lines if l.startswith("n ")]
+
+
 def arg_ok(path):
     return path and b"\0" not in path and all(c not in (b"", b".", b"..") for c in path.split(b"/")) and len(path) < 200
 
@@ -191,7 +193,7 @@ def arg_ok(path):
 # evaluation of a list of images
 # --------------------------------------------------------------------------
 
-def evaluate(ctx, e, cases, pristine=None, tools=True):
+def evaluate(ctx, e, cases, pristine=None, tools=True, model=True):
     """cases: list of (name, bytes).  Returns (violations, stats)."""
     paths = []
     for i, (name, img) in enumerate(cases):
@@ -205,10 +207,23 @@ def evaluate(ctx, e, cases, pristine=None, tools=True):
     def runh(j):
         i, m = j
         return j, run_proc([e.H, paths[i], m], env=e.env)
-    with ThreadPoolExecutor(16) as ex:
+    # 2. model (in the background: it only needs the image files)
+    import threading
+    mbox = {}
+
+    def run_model():
+        t = time.time()
+        mbox["res"] = model_batch(e, [(m, paths[i], []) for i in range(len(cases)) for m in ("all", "xattr")]) if model else {}
+        mbox["t"] = time.time() - t
+    mth = threading.Thread(target=run_model)
+    mth.start()
+    tt = time.time()
+    with ThreadPoolExecutor(12) as ex:
         hres = dict(ex.map(runh, hjobs))
-    # 2. model
-    mres = model_batch(e, [(m, paths[i], []) for i in range(len(cases)) for m in ("all", "xattr")])
+    t_h = time.time() - tt
+    mth.join()
+    mres = mbox["res"]
+    t_m = mbox["t"]
     viol = []
     stats = dict(runs=len(hjobs), compared=0, agree=0, unk=0, nontrivial=set(), tree_ok=0, err_classes={}, tool_runs=0,
                  verdict_checked=0)
@@ -230,6 +245,8 @@ def evaluate(ctx, e, cases, pristine=None, tools=True):
                 continue
             c = [l for l in r["out"].decode("latin-1").split("\n") if l]
             ml = mres.get((m, paths[i]))
+            if not model:
+                continue
             if ml is None:
                 viol.append(dict(sig="machinery:model-missing", what="model driver produced no transcript for '%s'" % name,
                                  img=img, name=name, concrete=False, detail={}))
@@ -283,8 +300,13 @@ def evaluate(ctx, e, cases, pristine=None, tools=True):
             links = [p for p, t in node_paths(hall["out"].decode("latin-1").split("\n")) if t in (3, 10) and arg_ok(p)]
             anyp = [p for p, t in node_paths(hall["out"].decode("latin-1").split("\n")) if arg_ok(p)]
             f0 = files[0] if files else b"f1"
-            tool_jobs.append((i, "rdsquashfs -l", [e.T["rdsquashfs"], "-l", "/", paths[i]], accept))
-            tool_jobs.append((i, "rdsquashfs -d", [e.T["rdsquashfs"], "-d", paths[i]], None))
+            allp = node_paths(hall["out"].decode("latin-1").split("\n"))
+            if accept:
+                # describe additionally refuses names sqfs_tree_node_get_path rejects
+                accept = all(c not in (b"", b".", b"..") for p, t in allp[1:] for c in [p.split(b"/")[-1]]) and \
+                    all(b"/" not in nm for nm in node_names(hall["out"].decode("latin-1").split("\n"))[1:])
+            tool_jobs.append((i, "rdsquashfs -l", [e.T["rdsquashfs"], "-l", "/", paths[i]], None))
+            tool_jobs.append((i, "rdsquashfs -d", [e.T["rdsquashfs"], "-d", paths[i]], accept))
             tool_jobs.append((i, "rdsquashfs -c", [e.T["rdsquashfs"], "-c", f0, paths[i]], None))
             if len(files) > 1:
                 tool_jobs.append((i, "rdsquashfs -c", [e.T["rdsquashfs"], "-c", files[-1], paths[i]], None))
@@ -309,9 +331,13 @@ def evaluate(ctx, e, cases, pristine=None, tools=True):
                 shutil.rmtree(d, ignore_errors=True)
                 return j, r
             return j, run_proc(cmd, env=e.env, stdout=subprocess.DEVNULL)
+        tt = time.time()
         with ThreadPoolExecutor(16) as ex:
             tres = list(ex.map(runt, tool_jobs))
         stats["tool_runs"] = len(tres)
+        slow = sorted(tres, key=lambda x: -x[1]["t"])[:3]
+        ctx.log("  harness %.1fs model %.1fs tools %.1fs; slowest: %s" % (t_h, t_m, time.time() - tt, [
+            (cases[j[0]][0][:40], j[1], round(r["t"], 1)) for j, r in slow]))
         for (i, label, cmd, accept), r in tres:
             name, img = cases[i]
             d = died(r)
@@ -350,6 +376,8 @@ def meta_sequences(ctx, e):
         "meta:short-next": base + struct.pack("<H", 0x8000 | 8192) + blk + struct.pack("<H", 0x8000 | 100) + b"\1" * 10,
         "meta:huge-next": base + struct.pack("<H", 0x8000 | 8192) + blk + struct.pack("<H", 0xFFFF) + b"\2" * 64,
         "meta:garbage-compressed": base + struct.pack("<H", 0x8000 | 8192) + blk + struct.pack("<H", 20) + b"\3" * 64,
+        "meta:oversize": base + struct.pack("<H", 0xFFFF) + b"\4" * 40000,
+        "meta:oversize-8193": base + struct.pack("<H", 0x8000 | 8193) + b"\5" * 40000,
     }
     seqs = [["s%d,0" % X, "r8192", "r1", "r16"], ["s%d,0" % X, "r8192", "r1", "r20000"],
             ["s%d,8191" % X, "r1", "r1", "r1", "s%d,0" % X, "r3"], ["s%d,8192" % X, "r1"], ["r5"],
@@ -440,6 +468,7 @@ def run(ctx):
     if GEN_ERR:
         ctx.violation("machinery:gen-c05", GEN_ERR, dict(kind="constants generator"), no_input=True)
         return
+    limits()
     e = setup_env(ctx)
     ctx.trusted += [
         "props/C05/h_reader.c (API harness), props/C05/driver.ml + stubs.c (byte/number printing, checksum, system zlib "
@@ -480,10 +509,13 @@ def run(ctx):
         return
     t0 = time.time()
     cases = list(gen.field_cases(rnd, ctx.tier)) + list(gen.loop_cases(rnd)) + list(gen.xattr_cases(rnd, ctx.tier))
+    mh = list(gen.meta_header_cases(rnd, ctx.tier))
+    cases += mh if ctx.tier == "thorough" else ([x for x in mh if x[0].startswith("methdr-pad")] +
+                                                 rnd.sample([x for x in mh if not x[0].startswith("methdr-pad")], 30))
     nfield = len(cases)
     reals = real_images(ctx, e, rnd)
     nmut = 0
-    per = 40 if ctx.tier == "quick" else 1500
+    per = 36 if ctx.tier == "quick" else 800
     real_cases = []
     for nm, p, img in reals:
         real_cases.append(("real:%s" % nm, img, p))
@@ -512,7 +544,7 @@ def run(ctx):
     viol += v
     # nesting depth the tools must survive
     img = deep_nest(NEST_TESTED)
-    v, st = evaluate(ctx, e, [("nest:%d" % NEST_TESTED, img)])
+    v, st = evaluate(ctx, e, [("nest:%d" % NEST_TESTED, img)], model=False)
     viol += v
     stats_all.append(st)
     if ctx.tier == "thorough":
